@@ -269,7 +269,7 @@ func spec_cells() bool {
 //@   requires snaps: forall(k, 0, len(tx.snapshots), tx.snapshots[k] != nil && tx.snapshots[k].snap != nil)
 //@   requires readers: tx.mvccReadSet != nil ==> forall(k, 0, len(tx.mvccReadSet.expectedReaders), tx.mvccReadSet.expectedReaders[k] != nil)
 //@   ensures prec_all_checked: r0 == nil ==> verif_g.checks.n == old(verif_g.checks.n) + len(tx.preconditions)
-//@   ensures prec_all_passed: r0 == nil ==> verif_g.passed.n == old(verif_g.passed.n) + len(tx.preconditions) + 1
+//@   ensures prec_all_passed: r0 == nil ==> verif_g.passed.n == old(verif_g.passed.n) + len(tx.preconditions)
 //@   ensures snaps_all_examined: r0 == nil && tx.mode != WriteOnlyTx ==> verif_g.tss.n == old(verif_g.tss.n) + len(tx.snapshots)
 //@   ensures evals_all: r0 == nil && tx.mode != WriteOnlyTx && verif_g.sync.n == old(verif_g.sync.n) + 1 && verif_g.sync.pfx == 0
 //@     ==> verif_g.evals.n == old(verif_g.evals.n) + len(tx.mvccReadSet.expectedGets) + len(tx.mvccReadSet.expectedGetsWithPrefix) + 1
